@@ -1,5 +1,5 @@
 """Properties decided on the generator-side model (Gen): C15 (Basic-Latin table), ..."""
-import os, subprocess, collections
+import os, re, subprocess, collections
 from . import common as C
 from . import corr
 from .props import prop, same_on
@@ -293,6 +293,16 @@ def flat_bytes(val):
     import re
     return "".join(re.findall(r"b([0-9a-f]*)", val or ""))
 
+def leaves_norm(v):
+    """leaf sequence of a printed value, adjacent byte leaves concatenated: b42,b4141 == b424141"""
+    out = []
+    for tok in re.findall(r"b[0-9a-f]*|i-?\d+|s[0-9a-f]*|nil", v):
+        if tok.startswith("b") and out and out[-1].startswith("b"):
+            out[-1] += tok[1:]
+        else:
+            out.append(tok)
+    return " ".join(out)
+
 def action_trace(trace, keep_params=None):
     """action events (cid, text, pos) and the label values the unoptimised parser passes to the
     block (inlining may put further labels into scope; the block's code cannot name them)"""
@@ -306,7 +316,29 @@ def action_trace(trace, keep_params=None):
         kept = ""
         if args and keep_params is not None:
             cid = parts[0][1:]
-            items = [a for a in args[0][3:-1].split(",") if a and a.split("=")[0] in keep_params.get(cid, set())]
+            # label values: compared up to regrouping (the structural value of an action-less group may be
+            # regrouped, e.g. when adjacent literals are merged): the sequence of leaves, adjacent byte leaves joined;
+            # a label that occurs twice in scope after inlining is passed once (the builder declares it once)
+            body = args[0][3:-1]
+            parts_, depth, cur_ = [], 0, ""
+            for ch in body:
+                if ch == "[":
+                    depth += 1
+                elif ch == "]":
+                    depth -= 1
+                if ch == "," and depth == 0:
+                    parts_.append(cur_)
+                    cur_ = ""
+                else:
+                    cur_ += ch
+            if cur_:
+                parts_.append(cur_)
+            items, seen_ = [], set()
+            for it in parts_:
+                k, _, v = it.partition("=")
+                if k in keep_params.get(cid, set()) and k not in seen_:
+                    seen_.add(k)
+                    items.append(k + "=" + leaves_norm(v))
             kept = ",".join(items)
         out.append(head + ":a=(" + kept + ")")
     return ";".join(out)
@@ -318,8 +350,38 @@ def block_params(case_line):
         res[m.group(1)] = set(x[1:] for x in m.group(2).split())
     return res
 
+C09_MAIN = """package main
+
+import (
+	"fmt"
+	"os"
+)
+
+func main() {
+	v, err := Parse("", []byte(os.Args[1]))
+	fmt.Printf("%v|%v\\n", v, err)
+}
+"""
+
 def replay_c09_known(ctx, k):
-    return True
+    """the witness grammar gives different results with and without -optimize-grammar on its input (real parsers)"""
+    outs = []
+    for i, fl in enumerate(([], ["-optimize-grammar"])):
+        d = os.path.dirname(ctx.sc.path("kf_c09", k["id"], str(i), "x"))
+        p = subprocess.run([ctx.pigeon()] + fl + ["-o", os.path.join(d, "parser.go")], input=k["grammar"], text=True,
+                           stdout=subprocess.PIPE, stderr=subprocess.PIPE, timeout=120)
+        if p.returncode != 0:
+            return False
+        with open(os.path.join(d, "main.go"), "w") as f:
+            f.write(C09_MAIN)
+        with open(os.path.join(d, "go.mod"), "w") as f:
+            f.write("module kf\n\ngo 1.25.0\n")
+        b = subprocess.run(["go", "build", "-o", "prog", "."], cwd=d, env=C.go_env(), stdout=subprocess.PIPE, stderr=subprocess.STDOUT, text=True, timeout=600)
+        if b.returncode != 0:
+            return False
+        r = subprocess.run([os.path.join(d, "prog"), k["input"]], stdout=subprocess.PIPE, stderr=subprocess.STDOUT, text=True, timeout=60)
+        outs.append(r.stdout)
+    return outs[0] != outs[1]
 
 @prop("C09", replay_known=replay_c09_known)
 def c09(ctx, rep):
@@ -345,6 +407,8 @@ def c09(ctx, rep):
     pairs = 0
     nontriv = 0
     for cid, l in by_id.items():
+        if model.get(cid, {}).get("out") == "model-timeout" or model.get(cid[:-5] + "~opt" if cid.endswith("~orig") else cid, {}).get("out") == "model-timeout":
+            continue
         if not same_on(["out", "val", "errs", "trace"], model.get(cid, {}), impl.get(cid, {})):
             rep.violation("model/implementation disagree", {"case": l, "model": model.get(cid), "impl": impl.get(cid)}, found=False)
         if not cid.endswith("~orig"):
